@@ -1,5 +1,6 @@
 pub mod vclock;
 pub mod lattice;
+pub mod orswot;
 
 use serde::{de::DeserializeOwned, Serialize};
 
